@@ -616,12 +616,89 @@ fn wrap_hidden_only(mut p: P, it: &J) -> P {
     p
 }
 
+/// `batteries::verbose_and_quiet_by_number` / `verbose_by_slice` (the table holds its own indices); without the
+/// `batteries` feature the same parser is composed by hand, the way the crate's source does it
+fn battery_vq(b: &J) -> P {
+    let offset = b["offset"].as_i64().unwrap() as isize;
+    let (min, max) = (b["min"].as_i64().unwrap() as isize, b["max"].as_i64().unwrap() as isize);
+    #[cfg(feature = "batteries")]
+    {
+        if s(b, "k") == "slice" {
+            assert!(min == 0 && max == 3, "the harness knows tables of four entries");
+            return bpaf::batteries::verbose_by_slice(offset as usize, [0i64, 1, 2, 3]).map(Val::Int).boxed();
+        }
+        bpaf::batteries::verbose_and_quiet_by_number(offset, min, max).map(|v| Val::Int(v as i64)).boxed()
+    }
+    #[cfg(not(feature = "batteries"))]
+    {
+        let verbose = short('v')
+            .long("verbose")
+            .help("Increase output verbosity, can be used several times")
+            .req_flag(())
+            .many()
+            .map(|v| v.len() as isize);
+        let quiet = short('q')
+            .long("quiet")
+            .help("Decrease output verbosity, can be used several times")
+            .req_flag(())
+            .many()
+            .map(|v| v.len() as isize);
+        construct!(verbose, quiet).map(move |(v, q)| Val::Int((v - q + offset).clamp(min, max) as i64)).boxed()
+    }
+}
+
+/// `batteries::toggle_flag`: two required flags, the last one given decides
+fn battery_toggle(it: &J) -> P {
+    let br = arr(it, "branches");
+    let (a, b2) = (named_arg(&br[0]["fields"][0]), named_arg(&br[1]["fields"][0]));
+    #[cfg(feature = "batteries")]
+    let p = bpaf::batteries::toggle_flag(a, 0usize, b2, 1usize);
+    #[cfg(not(feature = "batteries"))]
+    let p = {
+        let a = a.req_flag(0usize);
+        let b2 = b2.req_flag(1usize);
+        construct!([a, b2]).many().map(|xs| xs.into_iter().last())
+    };
+    p.map(|v| match v {
+        Some(k) => Val::Just(Box::new(Val::Variant(k, Box::new(Val::Unit)))),
+        None => Val::Nothing,
+    })
+    .boxed()
+}
+
+/// `batteries::cargo_helper`
+fn cargo_wrap(cmd: &'static str, p: P) -> P {
+    #[cfg(feature = "batteries")]
+    {
+        bpaf::batteries::cargo_helper(cmd, p).boxed()
+    }
+    #[cfg(not(feature = "batteries"))]
+    {
+        let skip = bpaf::literal(cmd).optional().hide();
+        construct!(skip, p).map(|x| x.1).boxed()
+    }
+}
+
 pub fn level_fields(level: &J) -> Vec<P> {
     // adjacent subcommands marked `joined` are the alternatives of one repeated choice:
     // `construct!([build, test, clean]).many()`; the choice sits where its first command is declared
     let mut fields: Vec<P> = Vec::new();
     let mut done: Vec<String> = Vec::new();
+    let mut skip_next = false;
     for f in arr(level, "named") {
+        if skip_next {
+            skip_next = false;          // the second flag of a battery
+            continue;
+        }
+        if let Some(bt) = f.get("battery").filter(|b| matches!(s(b, "k"), "vq" | "slice")) {
+            fields.push(battery_vq(bt));
+            skip_next = true;
+            continue;
+        }
+        if f.get("battery").map_or(false, |b| s(b, "k") == "toggle") {
+            fields.push(battery_toggle(f));
+            continue;
+        }
         let j = s(f, "joined");
         if j.is_empty() {
             fields.push(build_node(f));
@@ -697,7 +774,9 @@ pub fn level_fields(level: &J) -> Vec<P> {
 }
 
 pub fn build_options(level: &J) -> OptionParser<Val> {
-    let mut op = con(level_fields(level), false).to_options();
+    let inner = con(level_fields(level), false);
+    let cargo = s(level, "cargo");
+    let mut op = if cargo.is_empty() { inner.to_options() } else { cargo_wrap(leak(&dstr(cargo)), inner).to_options() };
     if b(level, "version") {
         let vt = s(level, "version_text");
         op = if vt.is_empty() {
